@@ -232,6 +232,7 @@ pub fn branch_shapes() -> BoxedStrategy<String> {
         3 => gens::pick(&["develop", "main", "master", "release/1", "release/2/x", "release/x/3", "release/", "release", "releasenotes", "release-1", "release1/2",
             "feature/x", "feature/12/y", "feature/007", "hotfix/99999999999", "hotfix/4294967295", "hotfix/4294967296", "x", "y", "z", "123", "0", "a/0/1", "develop/x", "developer",
             "rel/é/5", "é", "feature/12a/3"]).prop_map(String::from),
+        2 => gens::pick(&["rel-1.0/7", "rel-110/7", "rel-1x0/7", "v1.2/3", "v1x2/3", "a+b/3", "ab/3", "aab/3", "(x)/3", "x/3", "[ab]/3", "a/3", "b/3", "x|y/3", "y/3", "r.l/3", "rel/3", "rxl/3", "rel-1.0", "rel-1x0", "a.b", "axb", "x?/3", "xx/3", "re*/3", "ree/3", "release/3"]).prop_map(String::from),
         2 => (gens::pick(&["release", "feature", "hotfix", "develop", "rel", "x"]), gens::pick(&["/", "", "-", "//", "/a/", "/1/"]), gens::text::tame()).prop_map(|(a, b, c)| format!("{a}{b}{c}")),
         2 => gens::text::nasty(),
         1 => "[a-z]{1,8}",
@@ -242,6 +243,8 @@ pub fn rule_set() -> BoxedStrategy<Vec<Rule>> {
     let pat = prop_oneof![
         3 => gens::pick(&["release/*", "feature/*", "rel/*", "x/*", "release/1/*", "*", "a/*"]).prop_map(String::from),
         3 => gens::pick(&["develop", "main", "release", "x", "release/1", "feature/x", "123"]).prop_map(String::from),
+        // patterns are literal text: nothing in them is a regular-expression or glob operator
+        2 => gens::pick(&["rel-1.0/*", "v1.2/*", "a+b/*", "(x)/*", "[ab]/*", "x|y/*", "r.l/*", "rel-1.0", "a.b", "x?/*", "re*/*"]).prop_map(String::from),
     ];
     proptest::collection::vec((pat, 0u8..3, proptest::option::weighted(0.5, gens::num::u32_biased()), any::<bool>(), prop::bool::weighted(0.93)), 0..5)
         .prop_map(|v| {
@@ -300,14 +303,15 @@ pub fn property() -> Property {
     // exhaustive grid: rule pattern x branch shape x post mode
     let grid = EnumSub::<Case>::new(
         "enum-rule-grid",
-        "14 rule patterns x 60 branch shapes x {commit, tag} x hash length {1,5,9}: single-rule sets followed by the `*` rule, tag 1.2.3, distance 2",
+        "20 rule patterns (six with regular-expression metacharacters, which are literal text) x 73 branch shapes x {commit, tag} x hash length {1,5,9}: single-rule sets followed by the `*` rule, tag 1.2.3, distance 2",
         |_tier, shard, n, visit| {
-            let pats = ["release/*", "feature/*", "rel/*", "x/*", "release/1/*", "a/*", "é/*", "develop", "main", "release", "x", "release/1", "123", "feature/x"];
+            let pats = ["release/*", "feature/*", "rel/*", "x/*", "release/1/*", "a/*", "é/*", "develop", "main", "release", "x", "release/1", "123", "feature/x", "rel-1.0/*", "a+b/*", "(x)/*", "[ab]/*", "r.l/*", "a.b"];
             let branches = [
                 "develop", "main", "master", "release/1", "release/2/x", "release/x/3", "release/", "release", "releasenotes", "release-1", "release1/2", "release/1/2",
                 "feature/x", "feature/12/y", "feature/007", "feature/", "featurex", "hotfix/99999999999", "hotfix/4294967295", "hotfix/4294967296", "x", "x/", "x/1", "x/y/2", "xy", "y", "z",
                 "123", "0", "a/0/1", "a/", "a", "ab/1", "develop/x", "developer", "rel/é/5", "rel", "rel/", "relx", "é", "é/3", "éé/3", "feature/12a/3", "release/00", "release/01/2",
                 "release//5", "/release/1", "release/1/", "x/1x/2", "X/1", "RELEASE/1", "release/1 ", " release/1", "release/-1", "release/+1", "release/1.0", "main/1", "123/4", "feature/x/y", "1/2/3",
+                "rel-1.0/7", "rel-110/7", "rel-1x0/7", "a+b/3", "ab/3", "aab/3", "(x)/3", "[ab]/3", "b/3", "r.l/3", "rxl/3", "a.b", "axb",
             ];
             let mut idx = 0usize;
             for p in pats {
